@@ -23,7 +23,9 @@ func (x *mutCtx) pct(p int, l string) bool       { return rapid.IntRange(0, 99).
 func (x *mutCtx) pick(xs []string, l string) string {
 	return rapid.SampledFrom(xs).Draw(x.t, l)
 }
-func (x *mutCtx) fresh(prefix string) string { return fmt.Sprintf("%s%d", prefix, len(x.s.Decls)+len(x.s.Items)) }
+func (x *mutCtx) fresh(prefix string) string {
+	return fmt.Sprintf("%s%d", prefix, len(x.s.Decls)+len(x.s.Items)+31*len(x.s.Sets))
+}
 
 // pkgBetween draws a package in [lo, hi] (clamped).
 func (x *mutCtx) pkgBetween(lo, hi int, l string) int {
